@@ -52,8 +52,10 @@ def goaway_rule(pre, out, ctx, tag, want_code=None):
         if want_code is not None:
             check(g.error_code == want_code, tag + ':wrong-code-%s' % int(g.error_code), want_code)
         ok_ids = {pre.highest_in}
-        if pre.last_goaway is not None:
-            ok_ids = {pre.last_goaway}      # must not change once announced (RFC 7540 6.8)
+        if pre.last_goaway is not None and pre.last_goaway > pre.highest_in:
+            # an earlier GOAWAY already counted a stream the peer opened with the very frame
+            # that was refused
+            ok_ids.add(pre.last_goaway)
         f = getattr(out, 'sent_frame', None)
         if pre.conn_closed is None and f is not None and type(f).__name__ in (
                 'HeadersFrame',) and not pre.own(f.stream_id) and f.stream_id > pre.highest_in:
@@ -277,9 +279,97 @@ def h_second_error(client):
     return h
 
 
+def h_error_after_graceful_close(client):
+    """the application announced shutdown with close_connection(last_stream_id=k), k possibly
+    below the highest stream the peer opened; a later violating frame still gets exactly one
+    GOAWAY whose last-stream-id is the highest stream id the peer has opened"""
+    def h():
+        with h2h.native():
+            ctx = ops.Ctx(client)
+            if client:
+                ops.run_op(ctx, ('send_headers', 1, 'req', False))
+                ops.run_op(ctx, ('PP', 1, 2))
+                ops.run_op(ctx, ('PP', 1, 4))
+            else:
+                ops.run_op(ctx, ('HEADERS', 1, 'req', False))
+                ops.run_op(ctx, ('HEADERS', 3, 'req', False))
+                ops.run_op(ctx, ('HEADERS', 5, 'req', False))
+            ctx.me.data_to_send()
+        k = sym_int('last_stream_id', 0, 9, default=1)
+        cap = models.Out(ctx.me)
+        ctx.me.close_connection(last_stream_id=k)
+        fr = cap.frames()
+        check(len(fr) == 1 and isinstance(fr[0], hf.GoAwayFrame) and fr[0].last_stream_id == k,
+              'close-connection-frame', [h2h.frame_sig(f) for f in fr])
+        ctx.me.data_to_send()
+        pre = ctx.obs.clone()
+        pre.last_goaway = None          # the announced id is the application's, not the rule's
+        op = F.sym_choice('op', [('DATA', 9, False), ('CONT', 1), ('PING', False),
+                                 ('HEADERS', 1, 'trailers', False)])
+        o2 = ops.run_op(ctx, op, symbolic=True, observe=False)
+        note(o2.cls[0])
+        if o2.exc is not None:
+            goaway_rule(pre, o2, ctx, 'after-graceful-close')
+    return h
+
+
+SHAPES = {
+    'open': [('HEADERS', 'req', False)],
+    'hcr': [('HEADERS', 'req', True)],
+    'send_es': [('HEADERS', 'req', True), ('send_headers', 'resp', True)],
+    'recv_es': [('HEADERS', 'req', False), ('send_headers', 'resp', True), ('DATA', True)],
+    'send_rst': [('HEADERS', 'req', False), ('reset',)],
+    'recv_rst': [('HEADERS', 'req', False), ('RST',)],
+}
+
+
+def h_closed_stream_memory():
+    """how a stream was closed is remembered correctly when it is forgotten: streams 1 and 3
+    end in the given ways, the closed ones are purged, then HEADERS arrives on stream 1 and is
+    answered by the class the RFC prescribes for the way stream 1 closed"""
+    def h():
+        first = F.sym_choice('stream1', ['send_es', 'recv_es', 'send_rst', 'recv_rst'])
+        second = F.sym_choice('stream3', ['open', 'hcr', 'send_es', 'recv_es', 'send_rst',
+                                          'recv_rst'])
+        third = F.sym_choice('stream5', ['none', 'open', 'recv_rst', 'send_es'])
+        interleaved = F.sym_choice('interleaved', [True, False])
+        with h2h.native():
+            ctx = ops.Ctx(False)
+            todo = [(sid, shape) for sid, shape in ((1, first), (3, second), (5, third))
+                    if shape != 'none']
+            # all three are opened first and closed afterwards (so that a stream is purged
+            # while younger streams exist), or each is finished before the next one opens
+            steps = []
+            if interleaved:
+                steps = [(sid, SHAPES[sh][0]) for sid, sh in todo] + \
+                    [(sid, o) for sid, sh in todo for o in SHAPES[sh][1:]]
+            else:
+                steps = [(sid, o) for sid, sh in todo for o in SHAPES[sh]]
+            for sid, o in steps:
+                r = ops.run_op(ctx, (o[0], sid) + tuple(o[1:]))
+                if r.cls[0] not in ('ok', 'accept'):
+                    raise h2h.HarnessError('shape: %r on %d -> %r' % (o, sid, r.cls))
+            ctx.me.data_to_send()
+            ops.run_op(ctx, ('open_counts',))
+            pre = ctx.obs.clone()
+        out = ops.run_op(ctx, ('HEADERS', 1, 'trailers', True), symbolic=True)
+        note(out.cls[0])
+        allowed = c06.expect(pre, ('HEADERS', 1, 'trailers', True))
+        got = c06.norm(out.cls)
+        check(got in allowed, 'closed-stream-memory:%s+%s:%s' % (
+            first, second, '.'.join(str(x) for x in got)), sorted(allowed, key=repr))
+        if out.exc is not None:
+            goaway_rule(pre, out, ctx, 'closed-stream-memory')
+    return h
+
+
 def shards(tier, seed):
     out = F.standard_shards(tier, seed, judge, alpha_filter=lambda o: o[0].isupper(),
                             closure=False)
+    out.append(Shard('closed_stream_memory/server', h_closed_stream_memory()))
+    for client in (True, False):
+        out.append(Shard('error_after_graceful_close/%s' % ('client' if client else 'server'),
+                         h_error_after_graceful_close(client)))
     for client in (True, False):
         r = 'client' if client else 'server'
         out.append(Shard('frame_size/%s' % r, h_frame_size(client),
